@@ -252,7 +252,11 @@ Qed.
 Lemma merge_group_head_ok now si root root' lg :
   merge_group_head now si root = Ok (root', lg) -> step_ok root root' lg.
 Proof.
-  intro H. pose proof (merge_group_head_created _ _ _ _ _ H) as Hc. unfold merge_group_head in H.
+  intro H. pose proof (merge_group_head_created _ _ _ _ _ H) as Hc.
+  apply merge_group_head_cases in H as [(ri & rc & ri' & -> & _ & _ & -> & Eu)|[_ H]].
+  { (* the root itself: same UUID, same children *)
+    apply step_ok_keep; [exact Eu| |exact Hc]. intros _. apply Permutation_refl. }
+  unfold merge_group_head_below in H.
   destruct (fnl_db _ _) as [loc|]; [|injection H as <- _; apply step_ok_refl; exact Hc].
   destruct (find_group _ root) as [[di dc]|] eqn:E1; cbn [of_option bind] in H; [|discriminate].
   destruct (group_merge_with now di si) as [[di' lg1]| | |] eqn:E2; cbn [bind] in H; try discriminate.
@@ -708,12 +712,19 @@ Proof.
   apply nof_bind; [apply nof_of_option|intros [di dc]]. apply nof_of_option.
 Qed.
 
-Lemma merge_group_head_nof now si root : nof (merge_group_head now si root).
+Lemma merge_group_head_below_nof now si root : nof (merge_group_head_below now si root).
 Proof.
-  unfold merge_group_head. destruct (fnl_db _ _) as [loc|]; [|discriminate].
+  unfold merge_group_head_below. destruct (fnl_db _ _) as [loc|]; [|discriminate].
   apply nof_bind; [apply nof_of_option|intros [di dc]].
   apply nof_bind; [apply group_merge_with_nof|intros [di' lg]].
   apply nof_bind; [apply nof_of_option|intros root1; discriminate].
+Qed.
+
+Lemma merge_group_head_nof now si root : nof (merge_group_head now si root).
+Proof.
+  unfold merge_group_head. destruct root as [ri rc|e]; [|apply merge_group_head_below_nof].
+  destruct (N.eqb (gi_uuid si) (gi_uuid ri)); [|apply merge_group_head_below_nof].
+  apply nof_bind; [apply group_merge_with_nof|intros [ri' lg]; discriminate].
 Qed.
 
 Lemma merge_entry_step_nof now deleted path in_del oe root :
